@@ -289,7 +289,7 @@ def check_C16(tier, seed):
         out.samples = [{"grammar_text": grammars[i][1][:400], "routes": ["library x3 processes", "library x3 in-process", "peginator-cli", "Compile::file", "peginate! (first %d grammars)" % nm]} for i in (0, 1)]
     finally:
         shutil.rmtree(wd, ignore_errors=True)
-    rule = ("per (grammar, derive set {default, Debug+Clone+PartialEq+Eq}, prefix): library route in 3 fresh processes and 3 times within one process, peginator-cli (with -d), Compile::file (header and prefix stripped) - the set of distinct outputs must have size 1 (bytes); "
+    rule = ("per (grammar, derive set {default, Debug+Clone+PartialEq+Eq}, prefix): library route in 3 fresh processes and 3 times within one process, peginator-cli (with -d), Compile::file (header and prefix stripped; random builder-call order; destination absent / empty / cut-off header / a longer stale file) - the set of distinct outputs must have size 1 (bytes); the same-process route compiles a rule-permuted twin first; 8 threads of one process compile every grammar at the same time and must give what one thread gives; grammar files include CRLF / CR inside literals and no final newline; "
             "peginate!: macro expansion and library-route code compiled side by side with the documented-type assertion module applied to both, then run on the same inputs (results must be equal). "
             "evaluations = compared tuples; non-trivial = tuple whose grammar is accepted / parse progressed.")
     return out.finish(tuples, nontriv, rule, floor=20)
